@@ -351,3 +351,94 @@ def run_pairing(run, P):
 def run(run, P):
     run_stale(run, P)
     run_pairing(run, P)
+
+
+def run_atomic(run, P, units=('coap_pdu.c',)):
+    """R-FIXUP (bytes before bookkeeping): an in-place editor that adds option bytes writes them with coap_opt_encode(), which can refuse
+    (the space it is told about is too small).  In every function of the codec unit that calls coap_opt_encode() on a PDU it edits, the
+    PDU's used_size is increased only on paths that know that call succeeded (its result -- directly in the condition or through the local
+    it was assigned to -- known non-zero).  Bookkeeping that runs ahead of the encoder has two effects: the encoder is told the free space
+    AFTER the insertion instead of before it and refuses options that fit, and the refusal returns 0 from a message whose size already
+    covers bytes that were never written."""
+    from core.psts import Env, solve, relevance, apply_generic
+    run.rule('R-FIXUP')
+    ENC = 'coap_opt_encode'
+    n = 0
+    for f in sorted(P.lib_funcs(), key=lambda f: f['name']):
+        if f['unit'] not in units:
+            continue
+        pdus = set('v%d' % p['id'] for p in f['params'] if p.get('p') and not p.get('pc') and p.get('prec') == 'coap_pdu_t')
+        if not pdus:
+            continue
+        has_enc = any(isinstance(x, dict) and x.get('k') == 'call' and x.get('fn') == ENC
+                      for b in f['blocks'] for it in ([ev['e'] for ev in b['elems']] + [(b.get('term') or {}).get('cond') or {}]) for x in walk(it))
+        if not has_enc:
+            continue
+
+        def grows(t):
+            if t.get('k') == 'asg' and t.get('op') == '+=':
+                l = strip(t['l'])
+                if isinstance(l, dict) and l.get('k') == 'mem' and l.get('f') == 'used_size' and ap(l.get('b')) in pdus:
+                    return True
+            return False
+        grow = [ev for b, ev in P.events(f) if grows(ev['e'])]
+        if not grow:
+            continue
+        # locals that receive the encoder's result
+        resvars = set()
+        for b, ev in P.events(f):
+            t = ev['e']
+            if t.get('k') == 'asg' and t.get('op') == '=' and isinstance(strip(t['r']), dict) and strip(t['r']).get('k') == 'call' and strip(t['r']).get('fn') == ENC and ap(t['l']):
+                resvars.add(ap(t['l']))
+        name = f['name']
+        n += 1
+        run.instance('R-FIXUP', '%s: used_size grows only after coap_opt_encode() succeeded' % name)
+
+        def is_enc_asg(ev):
+            t = ev['e']
+            return t.get('k') == 'asg' and t.get('op') == '=' and isinstance(strip(t['r']), dict) and strip(t['r']).get('k') == 'call' and strip(t['r']).get('fn') == ENC
+
+        def is_rule_event(ev):
+            return any(ev is g for g in grow) or is_enc_asg(ev)
+        keys, R = relevance(f, is_rule_event, resvars)
+        R = set(R) | resvars
+        keys = set(keys)
+        for b in f['blocks']:
+            c = (b.get('term') or {}).get('cond')
+            if c is not None and any(isinstance(x, dict) and ((x.get('k') == 'call' and x.get('fn') == ENC) or ap(x) in resvars) for x in walk(c)):
+                keys.add(b['id'])
+
+        def on_branch(b, s, env, ctx):
+            c = strip((b.get('term') or {}).get('cond'))
+            if c is None or len(b['succ']) != 2:
+                return env
+            truth = s == b['succ'][0]
+            while isinstance(c, dict) and c.get('k') == 'un' and c.get('op') == '!':
+                c = strip(c['e'])
+                truth = not truth
+            if isinstance(c, dict) and c.get('k') == 'call' and c.get('fn') == ENC and truth:
+                e = env.copy()
+                e.ts['enc'] = 1
+                return e
+            return env
+
+        def on_event(ev, env, ctx):
+            if is_enc_asg(ev):
+                e = apply_generic(ev, env, R).copy()
+                e.ts['encvar'] = ap(ev['e']['l'])
+                return [e]
+            if any(ev is g for g in grow):
+                ok = bool(env.ts.get('enc'))
+                v = env.ts.get('encvar')
+                if not ok and v:
+                    lo, hi, ex = env.intf(v)
+                    ok = lo > 0 or hi < 0 or 0 in ex
+                run.oblige('R-FIXUP', ok, '%s:encode-before-bookkeeping' % name)
+                if not ok:
+                    run.violation('R-FIXUP', name, ev['loc'], 'size-grows-before-encode',
+                                  'pdu->used_size is increased on a path that does not know coap_opt_encode() succeeded: the encoder is then told the free space that is left '
+                                  'AFTER the insertion and refuses options that fit, and its refusal returns 0 from a message whose size already covers bytes that were never '
+                                  'written', ctx.path())
+            return None
+        solve(f, Env(), on_event, None, keys, R, key_fn=lambda e: (e.ts.get('enc'), e.ts.get('encvar'), tuple(e.intf(v)[:2] for v in sorted(resvars))), on_branch=on_branch)
+    run.require(n >= 2 or run.fixture_mode, 'R-FIXUP(bytes before bookkeeping): fewer than 2 editors that encode an option and grow used_size found')
